@@ -157,6 +157,13 @@ def _solve_elastic(mesh, mat, case, sets, Q, dim):
         simu.Solver_Set_Hyperbolic_Algorithm(case["dt"], algo=AlgoType(case["dynamic"]), alpha=0.2)
     u = np.asarray(simu.Solve(), float).reshape(mesh.Nn, dim)
     out = dict(u=u, W=float(simu.Result("Wdef")), Svm=np.asarray(simu.Result("Svm", nodeValues=False), float))
+    # the other scalars the simulation reports: element energies, equivalent strain, the smoothed-stress error estimator
+    avail = set(simu.Results_Available())
+    for nm in ("Wdef_e", "Evm"):
+        if nm in avail:
+            out[nm] = np.asarray(simu.Result(nm, nodeValues=False) if nm == "Evm" else simu.Result(nm), float).ravel()
+    if "ZZ1" in avail:
+        out["ZZ1"] = np.array([float(simu.Result("ZZ1"))])
     if case["dynamic"]:
         out["v"] = np.asarray(simu.speed, float).reshape(mesh.Nn, dim)
         out["a"] = np.asarray(simu.accel, float).reshape(mesh.Nn, dim)
@@ -205,6 +212,14 @@ def check_elastic(case, rec):
     un = float(case["law"].get("unit", 1.0))
     rec.close(s2["W"] - s1["W"], abs(s1["W"]) + 1e-6 * un, 1e-7, "energy_invariant", f"Wdef {s2['W']!r} vs {s1['W']!r}", **sig)
     rec.close(s2["Svm"] - s1["Svm"], np.abs(s1["Svm"]).max() + 1e-6 * un, 1e-7, "svm_invariant", "", **sig)
+    for nm in ("Wdef_e", "Evm", "ZZ1"):
+        if nm == "ZZ1" and not (abs(s1["W"]) > 1e-6 * un and np.all(np.isfinite(s1.get("ZZ1", np.nan)))):
+            continue  # the estimator is a ratio of energies: 0 / 0 in an unloaded state
+        if nm in s1 and nm in s2 and s1[nm].shape == s2[nm].shape:
+            floor = {"Wdef_e": 1e-6 * un, "Evm": 1e-6, "ZZ1": 1e-6}[nm]
+            rec.close(s2[nm] - s1[nm], float(np.abs(s1[nm]).max()) + floor, 1e-6, "scalar_result_invariant",
+                      f"{types} {case['law']['cls']} {iso['kind']}: Result('{nm}') changes under the rigid motion "
+                      f"({np.abs(s1[nm]).max()!r} vs {np.abs(s2[nm]).max()!r})", name=nm, **sig)
     loaded = any(abs(v) > 0 for k in ("ud", "body", "trac", "point") for v in case[k])
     rec.nontrivial(nontrivial_iso(iso) and loaded)
 
@@ -259,10 +274,11 @@ def beam_cases(draw):
     F = [draw(st.integers(-4, 4)) / 100.0 for _ in range(3)]
     Mo = [draw(st.integers(-4, 4)) / 100.0 for _ in range(3)]
     q = [draw(st.integers(-4, 4)) / 100.0 for _ in range(3)] if draw(st.booleans()) else [0.0, 0.0, 0.0]
-    return dict(member=spec, F=F, M=Mo, q=q)
+    # dynamic: the same comparison after two steps of a hyperbolic scheme (the mass of the member enters)
+    return dict(member=spec, F=F, M=Mo, q=q, dynamic=draw(st.sampled_from([None, None, "newmark", "midpoint"])))
 
 
-def _tip_response(spec, F_loc, M_loc, q_loc=(0.0, 0.0, 0.0)):
+def _tip_response(spec, F_loc, M_loc, q_loc=(0.0, 0.0, 0.0), dynamic=None):
     """cantilever clamped at p1, tip force/moment and uniform line load given in the member's own axes; returns the tip
     translations and rotations in the member's own axes"""
     simu, mesh, beam, frame = gb.build_member(spec)
@@ -278,6 +294,11 @@ def _tip_response(spec, F_loc, M_loc, q_loc=(0.0, 0.0, 0.0)):
     if any(q_loc):
         qg = P @ np.array(q_loc, float)
         simu.add_lineLoad(np.arange(mesh.Nn), [float(x) for x in qg[:dim]], unk[:dim])
+    if dynamic:
+        simu.rho = 3.0 * float(spec["E"]) / 100.0  # a period comparable with the step: inertia and stiffness both matter
+        simu.Solver_Set_Hyperbolic_Algorithm(0.05, algo=AlgoType(dynamic))
+        simu.Solve()
+        simu.Save_Iter()
     u = np.asarray(simu.Solve(), float).reshape(mesh.Nn, -1)[n2]
     if dim == 2:
         ug = np.array([u[0], u[1], 0.0])
@@ -309,10 +330,13 @@ def check_beam(case, rec):
     if dim == 2:
         q[2] = 0.0
     rec.label(f"beam:{kind}:{spec['elemType']}:{dim}d", "lineload" if any(q) else "tip_loads_only")
-    ul, rl, forces = _tip_response(spec, F, Mo, q)
+    dyn = case.get("dynamic")
+    if dyn:
+        rec.label("beam:dynamic:" + dyn)
+    ul, rl, forces = _tip_response(spec, F, Mo, q, dyn)
     ref = dict(spec)
     ref.update(p1=[0.0, 0.0, 0.0], d=[L, 0.0, 0.0], yAxis=None)
-    ul0, rl0, forces0 = _tip_response(ref, F, Mo, q)
+    ul0, rl0, forces0 = _tip_response(ref, F, Mo, q, dyn)
     # natural magnitudes from the applied loads: forces ~ |F| + |q| L + |M| / L, moments ~ that x L
     fscale = float(np.abs(F).max() + np.abs(q).max() * L + np.abs(Mo).max() / L) + 1e-300
     for nm in sorted(forces0):
@@ -328,7 +352,7 @@ def check_beam(case, rec):
               f"tip translation in own axes {ul} vs axis-aligned member {ul0}", **sig)
     rec.close(rl - rl0, scale_r, 1e-7, "beam_own_axes_r", f"{kind} {spec['elemType']} {dim}D d={spec['d']}: tip rotation in own axes "
               f"{rl} vs axis-aligned member {rl0}", **sig)
-    if kind == "eb":
+    if kind == "eb" and not dyn:
         A, Iy, Iz = gb.section_props(spec["b"], spec["h"])
         E = spec["E"]
         G = E / (2 * (1 + spec["v"]))
